@@ -541,9 +541,30 @@ fn read_back(case: &ContentCase, pkg: Pkg, created: &Created, out: &mut CaseOut)
                     );
                     continue;
                 }
-                match read_all(&region) {
+                // every third address is read through the owning conversion `ByteStream::from(region)`, the others through
+                // `region.stream()`; small contents also through get_slice
+                let by_conversion = i % 3 == 2;
+                let read = if by_conversion {
+                    let mut v = Vec::with_capacity(exp_len as usize);
+                    let mut st = jbk::reader::ByteStream::from(region.clone());
+                    st.read_to_end(&mut v).map(|_| v).map_err(|e| format!("stream (from region) read: {e}"))
+                } else {
+                    read_all(&region)
+                };
+                if exp_len > 0 && exp_len <= 100_000 {
+                    match region.get_slice(jbk::Offset::from(0u64), exp_len as usize) {
+                        Ok(sl) => {
+                            out.obs.inc("reads_by_get_slice");
+                            if sl.as_ref() != &case.bytes_of(i)[..] {
+                                out.violate(json!({"kind": "bytes", "class": class, "view": "get_slice"}), format!("C01: item {i}: get_slice(0, {exp_len}) returns other bytes than were stored"), json!({"item": i}));
+                            }
+                        }
+                        Err(e) => out.violate(json!({"kind": "read-error", "api": "get_slice", "message": util::normalize_msg(&e.to_string()), "class": class}), format!("C01: item {i}: get_slice: {e}"), json!({"item": i})),
+                    }
+                }
+                match read {
                     Ok(got) => {
-                        out.obs.inc("reads");
+                        out.obs.inc(if by_conversion { "reads_by_stream_conversion" } else { "reads" });
                         out.obs.add("bytes_compared", got.len() as u64);
                         if got != case.bytes_of(i) {
                             out.violate(
